@@ -53,6 +53,13 @@ def gen_op_cases(prop: str, tier: str, seed: int, n_quick: int, n_thorough: int,
                 if r < acc:
                     dt = name
                     break
+        # argument FORM: same values through other strides (slices / transposes), an upstream gradient that is expanded (what
+        # y.sum(-1).backward() hands down) or strided, and one differentiable input that does not require a gradient
+        r2 = rng.random()
+        if r2 < 0.30:
+            cfg["_layout"] = rng.choice(["noncontig", "up-expanded", "up-noncontig", "all-noncontig"])
+        if len(op.diff) >= 2 and rng.random() < 0.12:
+            cfg["_frozen"] = rng.choice(sorted(op.diff))
         if fn == "conv1d" and dt in ("bfloat16", "float16"):
             # PyTorch's own low-precision CPU conv kernels are unusable as a reference: bfloat16 conv1d backward returns
             # uninitialised memory in padding-only positions (not reproducible run to run, shown with plain F.conv1d) and
